@@ -56,6 +56,29 @@ def run_variant(payload, var, base):
         else:
             p.write_text(content, encoding="utf-8")
     out = root / var.get("out", "out")
+    transform = var.get("preexisting_from_reference")
+    if transform:
+        # a reference run into a scratch directory; its files, transformed, pre-populate
+        # the output directory of the run that is observed
+        ref = root / "reference-out"
+        params = cg_main.Parameters(
+            model_path=model, target=cg_main.Target(payload["target"]),
+            snippets_dir=snippets, output_dir=ref, cache_model=False)
+        cg_main.execute(params=params, stdout=io.StringIO(), stderr=io.StringIO())
+        if ref.exists():
+            for p in sorted(ref.rglob("*")):
+                if p.is_file():
+                    data = p.read_bytes()
+                    if transform == "crlf":
+                        data = data.replace(b"\r\n", b"\n").replace(b"\n", b"\r\n")
+                    elif transform == "trailing-blank":
+                        data = data + b" \n"
+                    elif transform == "truncated":
+                        data = data[: len(data) // 2]
+                    q = out / p.relative_to(ref)
+                    q.parent.mkdir(parents=True, exist_ok=True)
+                    q.write_bytes(data)
+            shutil.rmtree(ref, ignore_errors=True)
     for rel, content in (var.get("preexisting") or {}).items():
         p = out / rel
         p.parent.mkdir(parents=True, exist_ok=True)
@@ -66,9 +89,40 @@ def run_variant(payload, var, base):
     old_cwd = os.getcwd()
     os.chdir(cwd)
     orig_glob, orig_rglob = pathlib.Path.glob, pathlib.Path.rglob
+    orig_scandir, orig_listdir = os.scandir, os.listdir
     seed = var.get("glob_shuffle")
     if seed is not None:
         rnd = random.Random(seed)
+
+        class _Shuffled:
+            """os.scandir result in a shuffled order (directory listing order is undefined)."""
+
+            def __init__(self, it):
+                with it:
+                    self.entries = list(it)
+                rnd.shuffle(self.entries)
+
+            def __iter__(self):
+                return iter(self.entries)
+
+            def __enter__(self):
+                return self
+
+            def __exit__(self, *a):
+                return False
+
+            def close(self):
+                pass
+
+        def scandir(path="."):
+            return _Shuffled(orig_scandir(path))
+
+        def listdir(path="."):
+            res = orig_listdir(path)
+            rnd.shuffle(res)
+            return res
+
+        os.scandir, os.listdir = scandir, listdir
 
         def glob(self, *a, **k):
             res = list(orig_glob(self, *a, **k))
@@ -99,6 +153,7 @@ def run_variant(payload, var, base):
         result["exception"] = {"class": type(exc).__name__, "tb": traceback.format_exc()[-1500:]}
     finally:
         pathlib.Path.glob, pathlib.Path.rglob = orig_glob, orig_rglob
+        os.scandir, os.listdir = orig_scandir, orig_listdir
         os.chdir(old_cwd)
 
     def norm(s):
